@@ -853,3 +853,32 @@ package pdf
 //@   tags C11
 //@   assigns nothing
 //@   ensures err == nil && \local_ok ==> istype(res, Array) && len(as(res, Array)) == len(\local_arr)
+
+// ---- filter parameters reach the codecs unchanged (C06, C07): every option of the filter
+// ---- value is handed to the internal codec, field by field (ISO 32000-2 Table 11 for CCITT)
+//@ func (FilterCCITTFax).toParams (f) (p)
+//@   tags C06 C07
+//@   assigns nothing
+//@   fresh p
+//@   ensures p != nil && p.Columns == (f.Columns == 0 ? 1728 : f.Columns) && p.K == f.K && p.MaxRows == f.Rows
+//@   ensures p.EndOfLine == f.EndOfLine && p.EncodedByteAlign == f.EncodedByteAlign && p.BlackIs1 == f.BlackIs1
+//@   ensures p.IgnoreEndOfBlock == f.IgnoreEndOfBlock && p.DamagedRowsBeforeError == f.DamagedRowsBeforeError
+
+//@ func (FilterCompress).toLZW (f) (l)
+//@   tags C06 C07
+//@   pure
+//@   ensures l.Predictor == f.Predictor && l.Colors == f.Colors && l.BitsPerComponent == f.BitsPerComponent && l.Columns == f.Columns && l.OffByOne
+
+//@ func (FilterCompress).toFlate (f) (l)
+//@   tags C06 C07
+//@   pure
+//@   ensures l.Predictor == f.Predictor && l.Colors == f.Colors && l.BitsPerComponent == f.BitsPerComponent && l.Columns == f.Columns
+
+// the parameter dictionary says how the data was encoded (Table 8): a writer that does not use
+// the early change must say so, whatever else the dictionary holds
+//@ func (FilterLZW).Info (f, v) (name, parms, err)
+//@   tags C02 C06 C07
+//@   claims post/
+//@   assigns *
+//@   ensures err == nil ==> name == "LZWDecode"
+//@   ensures err == nil && !f.OffByOne ==> parms != nil && ("EarlyChange" in parms) && istype(parms["EarlyChange"], Integer) && intof(parms["EarlyChange"]) == 0
